@@ -18,6 +18,7 @@ import OcVerif.Driver.Join
 import OcVerif.Driver.Rt
 import OcVerif.Driver.Once
 import OcVerif.Driver.Sleepers
+import OcVerif.Driver.Pre
 /-!
 `ocmodel`: reads history lines `<comp> <id> : <body> => <implementation outputs>` on stdin,
 runs the Lean model on `<body>`, compares with the implementation's outputs and evaluates the
@@ -49,6 +50,7 @@ def dispatch (comp : String) : Option (String → String → Verdict) :=
   | "rt" => some Driver.Rt.drive
   | "once" => some Driver.Once.drive
   | "sleepers" => some Driver.Sleepers.drive
+  | "pre" => some Driver.Pre.drive
   | _ => none
 
 def handle (line : String) : String :=
